@@ -84,6 +84,16 @@ CHECKS.update({
    text="All lists of 2-4 trains drawn from the degenerate trains (no spike, one spike at every grid position incl. both edges, spikes on both edges, identical trains) plus a sampled slice of ordinary trains; TLC checks WellFormed on the spec result; every state is executed on the code in every call form under both backends and the returned object is checked: no exception, axis from t_start to t_end, strictly increasing (discrete: non-decreasing, framed), consistent lengths, positive multiplicities, all values finite; the bivariate-only functions are run on every ordered pair, normalised and not.",
    note="structural oracle; values are C01-C06; under the transliterated .pyx backend out-of-bounds accesses of the kernels are detected too"),
 })
+CHECKS.update({
+ "C19": dict(engine="D io/collections", design_ref="5 C19",
+   technique="TLC model checking of TextIO.tla (file = sequence of lines over a value pool closed under the rounding maps; RoundTrip, CountAndOrder, Identity17, RndMonotone) + replay of every behaviour through real files",
+   text="A file is a sequence of data / comment / blank lines, a data line a sequence of tokens from a finite value pool; the rounding maps per precision are tables computed by the harness with exact decimal arithmetic (round-half-even of the exact binary value) and handed to TLC as JSON. Save, user edits (comment line, blank line, reversed line) and the load loop are actions; TLC checks the round trip, the number and order of trains, identity at precision 17 and monotonicity of rounding. Every behaviour is replayed through save_spike_trains_to_txt / load_spike_trains_from_txt / spike_train_from_string on real temporary files (5 separators, 3 comment prefixes, pair and scalar edges); all 0/1 matrices of several shapes (including 1 x n and n x 1) are imported with 4 (start, bin) pairs.",
+   note="the decimal fidelity of arbitrary doubles is sampled through a finite pool of awkward doubles (0.1, 1/3, 1e-300, 2^53+2, ...), not decided; no backend dispatch"),
+ "C20": dict(engine="D io/collections", design_ref="5 C20",
+   technique="TLC model checking of Collections.tla (MergeIsMultisetUnion, PsthCounts) + replay; trace validation of recorded generate_poisson_spikes / merge executions against PoissonTrace.tla under a rank abstraction",
+   text="Merge (concatenate + sort, edges of the first train) and PSTH (int(T/bin) equal bins by linspace, half-open with a closed last bin) are modelled on grid trains with duplicates across trains and empty trains; TLC checks multiset equality, sortedness, equal bin widths spanning the recording and that the bin values are the spike counts summing to the total; every state is replayed at two unit scales. Code-to-spec: seeded executions of generate_poisson_spikes (3 interval forms x 5 rates) and of merge_spike_trains on the repository's float data file and random float trains are recorded, every time replaced by its rank, and validated in one TLC batch run against the post-condition actions PoissonPost / MergePost.",
+   note="nothing is claimed about the distribution of the Poisson generator; rank abstraction is exact for order and equality only"),
+})
 NOT_YET = {}
 
 def main():
@@ -116,6 +126,7 @@ def main():
         "engines": [
             {"name": "A pair-scan", "path": "spec/IsiScan.tla spec/SpikeScan.tla spec/SyncScan.tla spec/SingleScan.tla harness/checkers.py", "serves_properties": ["C01", "C02", "C03", "C04"], "kind_free_text": "TLC exhaustive over all train pairs x keywords, JSON export of terminal states, replay into python backend, transliterated .pyx kernels and public API"},
             {"name": "C session", "path": "spec/Multi.tla spec/Reconcile.tla harness/checkers_multi.py", "serves_properties": ["C04", "C05", "C06", "C08", "C13", "C14", "C15", "C17", "C18"], "kind_free_text": "TLC enumerates lists x entry point x index selection x interval x keywords and computes the expected result the code's way (pair generation, recursive halving, transcribed adds); states replayed through pyspike.* in every call form under both backends"},
+            {"name": "D io/collections", "path": "spec/TextIO.tla spec/Collections.tla spec/PoissonTrace.tla harness/checkers_io.py harness/traces.py harness/pool.py", "serves_properties": ["C19", "C20"], "kind_free_text": "behaviours replayed through real temporary files; rank-abstracted recorded executions validated by TLC (batch trace validation)"},
             {"name": "B function objects", "path": "spec/FuncObjects.tla spec/FuncQuery.tla harness/checkers_func.py", "serves_properties": ["C09", "C10", "C11"], "kind_free_text": "TLC exhaustive over heaps of function objects and over (function, query) pairs; every transition / state replayed into the real classes"},
             {"name": "A + B (twins)", "path": "harness/checkers_rel.py (twin_*) harness/pyxshim.py", "serves_properties": ["C12"], "kind_free_text": "both members of each routine pair executed on every TLC export"},
             {"name": "A pair-scan (relations)", "path": "spec/Relations.tla harness/checkers_rel.py", "serves_properties": ["C07", "C08", "C15", "C16"], "kind_free_text": "TLC checks the relation on the declarative definitions for all pairs; each state is one case executed on the code before/after the transformation"},
